@@ -18,7 +18,7 @@ from ..model import AnalysisError, Func, Repo, dotted, is_name, norm, walk_shall
 from ..report import Ledger
 from ..sym import Lin, State, Sym, SymExec, as_lin, NotNumeric
 from ..util import arg_for_param, contains, names_in, paths
-from .shared import analyse_chunker, chunk_spec, fetch_call, _ChunkExec
+from .shared import analyse_chunker, chunk_spec, fetch_call, gap_iter_exact, _ChunkExec
 
 PROP = "C13"
 LEVEL = "other"
@@ -157,6 +157,18 @@ def run(repo: Repo, L: Ledger, tier: str):
         f = fi.methods.get(name)
         if f is None:
             raise AnalysisError(f"anchor FastaIndex.{name} vanished")
+        # materialisation of a whole fragment's chunks (list()/sorted()/comprehension over a chunk generator)
+        mats = []
+        for c in repo.calls_in(f):
+            d = dotted(c.func)
+            if d in ("list", "tuple", "sorted", "b''.join", "bytes") and c.args and any(isinstance(x, ast.Call) for x in ast.walk(c.args[0])):
+                mats.append(norm(c)[:60])
+        for n in walk_shallow(f.node):
+            if isinstance(n, ast.ListComp) and any(isinstance(x, ast.Call) and "chunk" in norm(x.func) for x in ast.walk(n)):
+                mats.append(norm(n)[:60])
+        if mats:
+            L.fail("R3", f.short + ":generator", f"all chunks of a fragment are materialised before the first is handed out ({mats[0]}): memory grows with the fragment, not with buffer_size (output bytes are unchanged)", f.loc())
+            continue
         info = analyse_chunker(repo, f)
         node, args = fetch_call(info)
         if node is None:
@@ -209,6 +221,9 @@ def run(repo: Repo, L: Ledger, tier: str):
                 okg, whyg = _bounded(cnt, B)
                 whyg = f"gap chunk of {cnt} characters is not bounded by buffer_size: {whyg}"
     L.check(okg, "R3", g.short + ":size", "gap chunk ≤ buffer_size characters", whyg, g.loc())
+
+    # buffer-size independence of gap rendering (structural half of "byte-identical for every buffer size")
+    gap_iter_exact(repo, L, "R3")
 
     # ---- R4
     fs = repo.cls("FastaStream")
